@@ -172,6 +172,9 @@ def readback_case(h, fmt, mode, w, hgt, sub=None):
         if sub:
             ix, iy, sw, sh = sub
             data = make_data(h.rng, mode, sh, sw)
+            if (ix + iy) % 2:
+                tiling.count_populated_positions()            # a parent that was used before the sub-image is derived
+                list(tiling.generate_populated_positions())
             t = tiling.compute_for_subimage(ix, iy, sw, sh)
         else:
             data = make_data(h.rng, mode, hgt, w)
@@ -272,9 +275,16 @@ def main():
         sw, sh = h.rng.randint(1, w), h.rng.randint(1, hh)
         ix, iy = h.rng.randint(0, w - sw), h.rng.randint(0, hh - sh)
         subs.append((w, hh, ix, iy, sw, sh))
-    for (w, hh, ix, iy, sw, sh) in subs:
-        t = StudyTiling(w, hh).compute_for_subimage(ix, iy, sw, sh)
-        h.case(("sub", w, hh, ix, iy, sw, sh))
+    for si_, (w, hh, ix, iy, sw, sh) in enumerate(subs):
+        parent_obj = StudyTiling(w, hh)
+        if si_ % 2:
+            # the parent has been USED before a sub-image is derived from it (tiled / queried): nothing it retains may leak
+            parent_obj.count_populated_positions()
+            if parent_obj._tile_levels <= 3:
+                list(parent_obj.generate_populated_positions())
+            h.count("sub-parent", "used-before")
+        t = parent_obj.compute_for_subimage(ix, iy, sw, sh)
+        h.case(("sub", w, hh, ix, iy, sw, sh, si_ % 2))
         par = StudyTiling(w, hh)
         if (t._img_gx0, t._img_gy0, t._p2n, t._tile_levels, t._width, t._height) != (par._img_gx0 + ix, par._img_gy0 + iy, par._p2n, par._tile_levels, sw, sh):
             h.violation(f"subgeom:{w}x{hh}", f"sub-image ({ix},{iy},{sw},{sh}) of {w}x{hh}: offsets ({t._img_gx0},{t._img_gy0}) size {t._width}x{t._height} p2n {t._p2n}; "
